@@ -607,7 +607,7 @@ pub fn property() -> Property {
     Property {
         id: "C01",
         title: "Untrusted bytes never crash decoding or the processing that follows it",
-        rule: "byte strings in four modes — uniform random (<= 4 KiB); valid wire messages of all 26 types (styled, optionally tagged) with 0-8 byte-level mutations (bit flips, overwrites, truncation, spliced slices, huge lengths, insertions); \
+        rule: "byte strings in four modes — uniform random (<= 4 KiB); valid wire messages of all 26 types (styled, optionally tagged) with 0-8 byte-level mutations (bit flips, overwrites, truncation, spliced slices, huge lengths, insertions) and structure-level repetition of an array element, siblings in nested lists sharing protected content, deterministic or free encoding style; \
                shape bombs (arity 0..7 arrays of arbitrary slots, counter-signature / key_ops / crit oddities); size/depth bombs up to 1 MiB (thorough 4 MiB): nesting to depth 2^17, huge declared lengths, chunk chains, wide flat arrays/maps/key sets/signer lists, \
                recipient nesting, and protected-header ⊃ counter-signature chains of depth up to 60000 in three shapes (protected / unprotected / alternating) x four forms (single counter-signature, array of one, array of two, alternating) inside nine carriers — through every decoding entry point (from_slice of every type, from_tagged_slice of the six tagged types, ProtectedHeader::from_cbor_bstr), \
                followed on accepted values by clone, ==, Debug, re-encode, drop and the to-be-signed / verify / MAC / decrypt helpers under their documented preconditions; in a supervised worker on a 2 MiB stack; \
